@@ -48,7 +48,7 @@ fn c15_int_extra(ctx: &Ctx<I64>, st: &mut Stats, rec: &Recorder) {
         Parsed::WellFormed(t) => t,
         _ => return,
     };
-    let pool: &[i64] = if ctx.s.contains('@') { &[7, -1, i64::MAX, i64::MIN, 3037000500] } else { &[7] };
+    let pool: &[i64] = if ctx.s.contains('@') { &[7, -1, i64::MAX, i64::MIN, 3037000500, 9007199254740993] } else { &[7] };
     for p in pool {
         let ri = run::<I64>(ctx.s, p);
         st.executions += 1;
@@ -219,11 +219,52 @@ pub fn c15(cx: &RunCtx) {
     let none: [Kind; 0] = [];
     // (i64, number)
     if cx.wants("i64") || cx.wants("number") {
-        let a: Vec<String> = ["2", "3", "7", "21", "9007199254740993", "9223372036854775807", "@", "+", "-", "*", "/", "%", "^", "!", "(", ")", ",", "abs(", "sgn(", "min(", "max(", "mod(", "pow(", "²"]
+        let a: Vec<String> = ["2", "3", "7", "21", "9007199254740993", "9007199254740992", "9223372036854775807", "@", "+", "-", "*", "/", "%", "^", "!", "(", ")", ",", "abs(", "sgn(", "min(", "max(", "mod(", "pow(", "²"]
             .iter()
             .map(|s| s.to_string())
             .collect();
         tok_run::<I64>(cx, "E-TOK pair (i64, number) integer alphabet", a, if quick { 5 } else { 6 }, 9, ONLY_DEFAULT, &none, Some(&c15_int_extra), 2400);
+        // min / max / mod / % / - over every ordered pair and triple of neighbouring integers beyond 2^53 (two
+        // such integers round to the same double)
+        let mut st = Stats::default();
+        let vals = [
+            "9007199254740992", "9007199254740993", "9007199254740994", "9223372036854775807", "9223372036854775806", "(-9223372036854775807)", "(-9223372036854775806)",
+            "(-9007199254740993)", "(-9007199254740992)", "3", "0", "@",
+        ];
+        let mut inputs: Vec<String> = vec![];
+        for x in vals {
+            for y in vals {
+                for name in ["min", "max", "mod"] {
+                    inputs.push(format!("{}({},{})", name, x, y));
+                }
+                inputs.push(format!("{}%{}", x, y));
+                inputs.push(format!("{}-{}", x, y));
+                inputs.push(format!("sgn({}-{})", x, y));
+                for z in vals {
+                    for name in ["min", "max"] {
+                        inputs.push(format!("{}({},{},{})", name, x, y, z));
+                    }
+                }
+            }
+        }
+        for s in inputs {
+            let lx = refmodel::lex::lex(refmodel::vocab::Ev::I64, &s);
+            let parsed = refmodel::parse::parse_lexed(refmodel::vocab::Ev::I64, &lx);
+            let base = run::<I64>(&s, &7);
+            st.nodes += 1;
+            st.transitions += 1;
+            st.executions += 1;
+            let ctx = Ctx::<I64> {
+                s: &s,
+                depth: 1,
+                lx: &lx,
+                parsed: &parsed,
+                base: &base,
+                engine: "E-AGG pair (i64, number) neighbouring integers beyond 2^53",
+            };
+            c15_int_extra(&ctx, &mut st, &cx.rec);
+        }
+        cx.add_run(&st, json!({"engine": "E-AGG pair (i64, number) neighbouring integers beyond 2^53", "stats": st.to_json()}));
     }
     // (f64, number)
     if cx.wants("f64") || cx.wants("number") {
